@@ -32,6 +32,8 @@ def crash_runs(ctx, nprog, nsteps, stride, nested, usage, extra=None):
         out = ctx.path("crash-%d.ndjson" % seed)
         args = [exe, "-seed", str(seed), "-n", str(nsteps), "-out", out, "-stride", str(stride), "-nested", str(nested),
                 "-usage", str(usage), "-par", "4"] + (extra or [])
+        if seed % 2 == 1:
+            args += ["-writers", str(2 + seed % 3)]     # a phase of merged concurrent writers (sync and non-sync in one group)
         s = run_driver(args, timeout=3000)
         s["path"] = out
         s["cmd"] = " ".join(args)
